@@ -359,6 +359,13 @@ fn one_set<T: KS, L: Lab>(out: &mut Out, rng: &mut Rng, reads: &[Read], ncombos:
                 *stats.passes.entry(0).or_insert(0) += 1;
                 out.nt = false;
                 out.case("f.filter", l(fin), V::Bot);
+                // with a non-zero budget filter_kmers returns for EVERY read set (C05_filter_spec; only the zero
+                // budget panics: C05_zero_budget_panics) - a panic is a failing input of the property
+                if p.mem >= 1 {
+                    let mut sin = head.clone();
+                    sin.push(rv.clone());
+                    out.case("s.filter", l(sin), V::Bot);
+                }
             }
         }
         out.nt = false;
